@@ -187,6 +187,18 @@ impl Report {
             "per_config": per_config,
             "known_findings_hit": known.iter().map(|(d,(n,_))| json!({"finding": d, "occurrences": n})).collect::<Vec<_>>(),
         });
+        // verdict of the last kernel conformance run (./check kernel-diff), if one was made on this machine
+        if self.property != "kernel-diff" {
+            if let Ok(txt) = std::fs::read_to_string(dir.join("evidence").join("kernel-diff.json")) {
+                if let Ok(kd) = serde_json::from_str::<Value>(&txt) {
+                    coverage["kernel_cross_validation"] = json!({
+                        "source": "evidence/kernel-diff.json (differential replay of the kernel against cw-multi-test 2.0.0)",
+                        "tier": kd["tier"], "traces_replayed": kd["coverage"]["states"], "steps_compared": kd["coverage"]["transitions"],
+                        "disagreements": kd["violations"], "verdict": kd["coverage"]["verdict"],
+                    });
+                }
+            }
+        }
         for (k, v) in &self.extra {
             coverage[k] = v.clone();
         }
